@@ -26,11 +26,12 @@ def _compile_ref(compiler, target, src, wd, tag, extra=()):
     c = os.path.join(wd, '%s.c' % tag)
     o = os.path.join(wd, '%s.o' % tag)
     common.write(c, src)
+    quiet = [] if any(e.startswith('-Werror') for e in extra) else ['-w']   # -w would also silence -Werror=...
     if compiler == 'clang':
-        cmd = ['clang', '--target=' + common.CLANG_TRIPLE[target], '-std=gnu11', '-w', '-c', '-fno-common', '-ffreestanding',
-               '-Wno-everything', '-O0', common.CHARFLAG[target]] + list(extra) + ['-o', o, c]
+        cmd = ['clang', '--target=' + common.CLANG_TRIPLE[target], '-std=gnu11', '-c', '-fno-common', '-ffreestanding',
+               '-O0', common.CHARFLAG[target]] + quiet + (['-Wno-everything'] if quiet else []) + list(extra) + ['-o', o, c]
     else:
-        cmd = ['gcc', '-std=gnu11', '-w', '-c', '-fno-common', '-O0', common.CHARFLAG[target]] + list(extra) + ['-o', o, c]
+        cmd = ['gcc', '-std=gnu11', '-c', '-fno-common', '-O0', common.CHARFLAG[target]] + quiet + list(extra) + ['-o', o, c]
     rc, out, err = common.sh(cmd)
     lines = set()
     if rc != 0:
